@@ -12,12 +12,22 @@ import (
 	"github.com/EliCDavis/vector/vector4"
 )
 
-func sv3(name string) vector3.Float64 {
-	return vector3.New(zz.Float64(name+".x"), zz.Float64(name+".y"), zz.Float64(name+".z"))
+// F32Inputs: symbolic values are float32-representable doubles (used by the ascii harnesses)
+var F32Inputs = false
+
+func sf(name string) float64 {
+	if F32Inputs {
+		return float64(zz.Float32(name))
+	}
+	return zz.Float64(name)
 }
-func sv2(name string) vector2.Float64 { return vector2.New(zz.Float64(name+".x"), zz.Float64(name+".y")) }
+
+func sv3(name string) vector3.Float64 {
+	return vector3.New(sf(name+".x"), sf(name+".y"), sf(name+".z"))
+}
+func sv2(name string) vector2.Float64 { return vector2.New(sf(name+".x"), sf(name+".y")) }
 func sv4(name string) vector4.Float64 {
-	return vector4.New(zz.Float64(name+".x"), zz.Float64(name+".y"), zz.Float64(name+".z"), zz.Float64(name+".w"))
+	return vector4.New(sf(name+".x"), sf(name+".y"), sf(name+".z"), sf(name+".w"))
 }
 
 const (
@@ -77,7 +87,7 @@ func symMesh(cfg int, topo modeling.Topology, maxV, maxT int) modeling.Mesh {
 	if cfg == cfgPosUserV1 {
 		d := make([]float64, V)
 		for i := range d {
-			d[i] = zz.Float64(fmt.Sprintf("t[%d]", i))
+			d[i] = sf(fmt.Sprintf("t[%d]", i))
 		}
 		m = m.SetFloat1Attribute(userV1, d)
 	}
@@ -204,6 +214,42 @@ func roundTripBinary(format ply.Format, topo modeling.Topology) {
 	zz.Assert(back.PrimitiveCount() == m.PrimitiveCount(), "primitive count preserved")
 	sameAtF32(m, *back, "binary round trip")
 }
+
+// ASCII: numbers are opaque tokens (stdlib decimal round trip); values are float32-representable so that the
+// file's double-precision text and the float32 image coincide
+func roundTripASCII(topo modeling.Topology) {
+	cfg := zz.Choose("cfg", cfgCount)
+	m := symMesh(cfg, topo, zz.Bound("V"), zz.Bound("T"))
+	zz.Reach("input")
+	buf := zz.NewBuf()
+	err := ply.Write(buf, m, ply.ASCII)
+	zz.Assert(err == nil, "ply.Write(ascii) returned an error")
+	if err != nil {
+		return
+	}
+	hdr, err := ply.ReadHeader(buf.Reader(-1))
+	zz.Assert(err == nil, "ReadHeader failed on the writer's own ascii output")
+	if err != nil {
+		return
+	}
+	zz.Reach("header")
+	zz.Assert(len(hdr.Elements) >= 1 && int(hdr.Elements[0].Count) == m.AttributeLength(), "ascii header vertex count equals the number of vertices")
+	if topo == modeling.TriangleTopology {
+		zz.Assert(len(hdr.Elements) == 2 && int(hdr.Elements[1].Count) == m.PrimitiveCount(), "ascii header face count equals the number of triangles")
+	}
+	back, err := ply.ReadMesh(buf.Reader(-1))
+	zz.Assert(err == nil, "ply.ReadMesh failed on the writer's own ascii output")
+	if err != nil {
+		return
+	}
+	zz.Reach("read-back")
+	zz.Assert(back.Topology() == topo, "ascii: topology preserved")
+	zz.Assert(back.PrimitiveCount() == m.PrimitiveCount(), "ascii: primitive count preserved")
+	sameAtF32(m, *back, "ascii round trip")
+}
+
+func ZZ_C04_ASCIITriangles() { F32Inputs = true; roundTripASCII(modeling.TriangleTopology) }
+func ZZ_C04_ASCIIPoints()    { F32Inputs = true; roundTripASCII(modeling.PointTopology) }
 
 func ZZ_C04_BinaryLETriangles() { roundTripBinary(ply.BinaryLittleEndian, modeling.TriangleTopology) }
 func ZZ_C04_BinaryBETriangles() { roundTripBinary(ply.BinaryBigEndian, modeling.TriangleTopology) }
